@@ -415,8 +415,14 @@ func MulticodeDecodeMultiple(s []byte) []*DenseGraph {
 	var numberOfVerticesLeft byte
 	for i := 0; i < len(s); i++ {
 		if numberOfVerticesLeft == 0 {
-			numberOfVerticesLeft = s[i] - 1
 			startOfGraph = i
+			if s[i] <= 1 {
+				//A graph on at most one vertex has no neighbour lists so the encoding is just this byte.
+				graphs = append(graphs, MulticodeDecode(s[i:i+1]))
+				continue
+			}
+			numberOfVerticesLeft = s[i] - 1
+			continue
 		}
 		if s[i] == 0 {
 			numberOfVerticesLeft--
